@@ -245,6 +245,9 @@ class Exec:
             cands = [f for f in self.prog.by_short.get(method, []) if f.nparams == nargs and "{closure" not in f.name
                      and "<impl at" in f.name and ((1 in f.param_types and base_type_name(f.param_types[1]) == selfn) or
                                                    (nargs == 0 and base_type_name(f.ret) == selfn))]
+            if not cands and method in ("from", "try_from", "from_str", "default", "new"):
+                cands = [f for f in self.prog.by_short.get(method, []) if f.nparams == nargs and "{closure" not in f.name
+                         and "<impl at" in f.name and base_type_name(re.sub(r"^Result<(.*),.*$", r"\1", f.ret)) == selfn]
             if len(cands) > 1:
                 raw_self = strip_generics(split_top_as(path[1:path.index(">::")] if ">::" in path else path[1:])[0]).replace("&", "").strip()
                 mods = [x for x in raw_self.split("::")[:-1] if x]
@@ -276,6 +279,11 @@ class Exec:
         # disambiguate with the type/module segment before the function name
         if len(segs) >= 2:
             hint = segs[-2]
+            c1 = [f for f in cands if (1 in f.param_types and base_type_name(f.param_types[1]) == hint) or
+                  (f.nparams == 0 or 1 not in f.param_types or base_type_name(f.param_types[1]) != hint) and base_type_name(f.ret) == hint and "<impl at" in f.name]
+            c1s = [f for f in c1 if 1 in f.param_types and base_type_name(f.param_types[1]) == hint] or c1
+            if len(c1s) == 1:
+                return c1s[0]
             c2 = [f for f in cands if hint.lower() in f.name.lower() or (1 in f.param_types and hint in f.param_types[1])]
             if len(c2) == 1:
                 return c2[0]
@@ -527,7 +535,7 @@ class Exec:
     def rvalue(self, fn, locs, rv, dest_ty=None):
         rv = rv.strip()
         if rv.startswith("&"):
-            m = re.match(r"^&(raw const |raw mut |mut |'\w+ )?(.*)$", rv)
+            m = re.match(r"^&(?:raw const |raw mut |mut |'\w+ )?(?:\(fake[^)]*\) |fake shallow |fake )?()(.*)$", rv)
             return self.place_ref(locs, self.parse_place(m.group(2)))
         if rv.startswith("discriminant("):
             v = self.read(locs, self.parse_place(rv[len("discriminant("):-1]))
@@ -819,7 +827,33 @@ class Exec:
             return int(ret_bb)
         raise Unsupported(f"terminator: {t}")
 
+    def all_generics(self, path):
+        """every turbofish argument in a call path, in order"""
+        out, depth, start, i = [], 0, None, 0
+        while i < len(path):
+            if path.startswith("::<", i) and depth == 0:
+                depth = 1
+                start = i + 3
+                i += 3
+                continue
+            c = path[i]
+            if depth > 0:
+                if c == "<":
+                    depth += 1
+                elif c == ">" and path[i - 1] != "-":
+                    depth -= 1
+                    if depth == 0:
+                        out.extend(split_top(path[start:i]))
+            i += 1
+        return out
+
     def do_call(self, callee, args, dest_ty, depth):
+        # inside a generic body rustc prints the type parameter itself (`<T as Trait>::m`): substitute the single type
+        # argument the enclosing call was made with
+        gstack = getattr(self, "generic_stack", [])
+        m = re.match(r"^<([A-Z]\w?) as (.*)$", callee)
+        if m and gstack and len(gstack[-1]) == 1 and not gstack[-1][0].startswith("{"):
+            callee = "<" + gstack[-1][0] + " as " + m.group(2)
         name = normalize_callee(callee)
         key = name if name in self.summaries else re.sub(r"^<[^>]*? as ", "<* as ", name)
         if key not in self.summaries and not name.startswith("<"):
@@ -831,7 +865,16 @@ class Exec:
             return self.summaries[key](self, Call(callee, name, callee_generics(callee), args, dest_ty))
         f = self.resolve(callee, len(args))
         if f is not None:
-            return self.call_fn(f, args, depth + 1)
+            if not hasattr(self, "generic_stack"):
+                self.generic_stack = []
+            self.generic_stack.append([g for g in self.all_generics(callee) if not g.strip().startswith("'")])
+            try:
+                return self.call_fn(f, args, depth + 1)
+            finally:
+                self.generic_stack.pop()
+        if re.match(r"^<.* as PartialEq>::ne$", name):
+            r = self.do_call(callee[:-2] + "eq", args, dest_ty, depth)      # default method: !eq
+            return Bool(z3.Not(r.t))
         if re.match(r"^<[A-Z][A-Z_0-9]+ as Deref>::deref$", name):
             self.used_summaries.add("<lazy_static metric as Deref>::deref")
             return Opaque("metric")         # lazy_static prometheus metrics: side effects outside every property
